@@ -19,6 +19,7 @@ pub mod c15;
 pub mod c16;
 pub mod c17;
 pub mod c18;
+pub mod c19;
 
 pub fn run(prop: &str, cfg: &Cfg, rep: &mut Report) -> bool {
     match prop {
@@ -40,6 +41,7 @@ pub fn run(prop: &str, cfg: &Cfg, rep: &mut Report) -> bool {
         "C16" => c16::run(cfg, rep),
         "C17" => c17::run(cfg, rep),
         "C18" => c18::run(cfg, rep),
+        "C19" => c19::run(cfg, rep),
         _ => return false,
     }
     true
